@@ -8,6 +8,11 @@ Implementation side (supporting evidence and the failing-input search; tolerance
            (textbook Rodrigues rotation / relaxation / dephasing, independent of epgpy; same ensemble as props/c01.py bloch_oracle)
   contract norm of (states - equilibrium) before/after E, SPOILER, D(tau, D >= 0); norm before/after SPOILER, D
   signal   |F0| <= PD and norm <= PD along random sequences of T/Phi/P/E/S/SPOILER/D with T2 <= 2 T1
+  ndcap    n-D INTEGER shifts (vector k, scalar int on existing coordinates, C) with max_nstate / nmax drawn from
+           {reached index, +1, -1 (truncating: only norm <= RMS), None}: norm == RMS length and F0 == mean of an n-D Bloch
+           ensemble; conjugate symmetry, |F0| <= PD, norm <= PD after every step
+  bfloat   BATCHED float gradients (k of shape (B > 1, d): shift-prune, kgrid) on non-real transverse states (generic RF
+           phases, precession), >= 3 rounds: same checks per batch entry
   info     with T2 > 2 T1 the bound can fail (recorded in the evidence, not a violation)
 plus the Interval tie of the operator arrays the theorems are about (T_op, Phi_op, E_op, P_op)."""
 import numpy as np
@@ -294,8 +299,260 @@ def check_rms(case):
     return None
 
 
+# ------------------------------------------------------------------ n-D ensembles: capped integer shifts, batched float gradients
+def kvec_of(o, dim):
+    """shift vector of one operator of the nd case language, padded to `dim` components"""
+    if o[0] == "S":
+        v = list(o[1])
+    elif o[0] == "Sint":          # scalar int shift on a state matrix that already has coordinates: first axis
+        v = [o[1]]
+    elif o[0] == "C":             # time-coherence operator: fourth axis
+        v = [0, 0, 0, o[1]]
+    else:
+        return None
+    return v + [0] * (dim - len(v))
+
+
+def nd_dim(ops):
+    return max([len(kvec_of(o, 0)) for o in ops if kvec_of(o, 0) is not None] + [1])
+
+
+def reached(ops, unit=1):
+    """per axis: cumulated |shift| in grid units (upper bound of the populated indices; attained when pulses separate the shifts)"""
+    dim = nd_dim(ops)
+    cum = [0] * dim
+    for o in ops:
+        v = kvec_of(o, dim)
+        if v is not None:
+            cum = [c + int(round(abs(x) / unit)) for c, x in zip(cum, v)]
+    return cum
+
+
+def ensemble_nd(ops, pd, unit=1):
+    """textbook Bloch isochromats on a regular grid of positions covering one full period of every wavenumber (multiples
+    of `unit`), fine enough (N > 2 * max index per axis) for the grid means of M and |M|^2 to be exact.
+    Returns (RMS length, mean of Mx + i My)."""
+    dim = nd_dim(ops)
+    cum = reached(ops, unit)
+    axes = [2 * np.pi / unit * np.arange(2 * c + 3) / (2 * c + 3) for c in cum]
+    X = np.stack(np.meshgrid(*axes, indexing="ij"), axis=-1).reshape(-1, dim)
+    n = X.shape[0]
+    mp, mz = np.zeros(n, complex), np.full(n, float(pd))
+    for o in ops:
+        if o[0] == "T":
+            a, ph = np.deg2rad(o[1]), np.deg2rad(o[2])
+            mx, my = mp.real, mp.imag
+            nx, ny = np.cos(ph), np.sin(ph)
+            nv = nx * mx + ny * my
+            x = mx * np.cos(a) + ny * mz * np.sin(a) + nx * nv * (1 - np.cos(a))
+            y = my * np.cos(a) - nx * mz * np.sin(a) + ny * nv * (1 - np.cos(a))
+            mz = mz * np.cos(a) + (nx * my - ny * mx) * np.sin(a)
+            mp = x + 1j * y
+        elif o[0] == "P":
+            mp = mp * np.exp(2j * np.pi * o[2] * o[1])
+        elif o[0] == "E":
+            tau, T1, T2, g = o[1:]
+            mp = mp * np.exp(-tau / T2) * np.exp(2j * np.pi * g * tau)
+            mz = mz * np.exp(-tau / T1) + pd * (1 - np.exp(-tau / T1))
+        elif o[0] == "SPOIL":
+            mp = np.zeros(n, complex)
+        else:
+            mp = mp * np.exp(1j * (X @ np.array(kvec_of(o, dim), float)))
+    return float(np.sqrt(np.mean(np.abs(mp) ** 2 + mz ** 2))), complex(np.mean(mp))
+
+
+def symmetry_violation(sm):
+    """F-(k) = conj F+(-k), Z(-k) = conj Z(k) on the stored arrays (mirror state located through the coordinates)"""
+    st = np.asarray(sm.states)
+    n2 = st.shape[-2]
+    if n2 % 2 != 1:
+        return "even number of phase states"
+    stf = st.reshape((-1, n2, 3))
+    if sm.coords is None:
+        mirrors = [np.arange(n2)[::-1]] * stf.shape[0]
+    else:
+        co = np.asarray(sm.coords)
+        co = np.broadcast_to(co, st.shape[:-2] + co.shape[-2:]).reshape((-1,) + co.shape[-2:]) if co.ndim > 2 else co[None]
+        if co.shape[0] == 1:
+            co = np.broadcast_to(co, (stf.shape[0],) + co.shape[1:])
+        mirrors = []
+        for b in range(stf.shape[0]):
+            if np.abs(np.asarray(co[b], float)[::-1] + np.asarray(co[b], float)).max() <= 1e-9:
+                mirrors.append(np.arange(n2)[::-1])      # stored order is mirror symmetric (all shift methods build it so)
+                continue
+            key = {tuple(np.round(np.asarray(c, float) * 1e6).astype(np.int64).tolist()): i for i, c in enumerate(co[b])}
+            m = []
+            for i, c in enumerate(co[b]):
+                j = key.get(tuple(np.round(-np.asarray(c, float) * 1e6).astype(np.int64).tolist()))
+                if j is None:
+                    if np.abs(stf[b, i]).max() > 1e-9:
+                        return "populated state %s has no mirror state" % np.asarray(c).tolist()
+                    j = i
+                m.append(j)
+            mirrors.append(np.array(m))
+    for b in range(stf.shape[0]):
+        m = mirrors[b]
+        e1 = np.abs(stf[b, :, 1] - stf[b, m, 0].conj()).max()
+        e2 = np.abs(stf[b, :, 2] - stf[b, m, 2].conj()).max()
+        if max(e1, e2) > 1e-9 * (1 + np.abs(stf[b]).max()):
+            return "F-(k) != conj F+(-k) or Z(-k) != conj Z(k) (max deviation %.3g)" % max(e1, e2)
+    return None
+
+
+def nd_build_op(o, nmax=None):
+    import epgpy as epg
+    kw = {} if nmax is None else {"nmax": nmax}
+    k = o[0]
+    if k == "T":
+        return epg.T(o[1], o[2])
+    if k == "P":
+        return epg.P(o[1], o[2])
+    if k == "E":
+        return epg.E(*o[1:])
+    if k == "SPOIL":
+        return epg.SPOILER
+    if k == "S":
+        return epg.S(list(o[1]), **kw)
+    if k == "Sint":
+        return epg.S(int(o[1]), **kw)
+    if k == "C":
+        return epg.C(int(o[1]), **kw)
+    if k == "Sb":
+        return epg.S([list(v) for v in o[1]], **kw)
+    raise ValueError(k)
+
+
+def gen_rounds(rng, nrounds, shift, relax_p=0.3):
+    """[pulse with generic phase, optional precession / relaxation (T2 <= 2 T1), shift] * nrounds, then a last pulse"""
+    ops = []
+    for i in range(nrounds):
+        ops.append(["T", r(rng, 20, 160), r(rng, -180, 180)])
+        u = rng.random()
+        if u < 0.35:
+            ops.append(["P", r(rng, 0.5, 20), r(rng, -0.1, 0.1, 4)])
+        elif u < 0.35 + relax_p:
+            T1 = r(rng, 100, 2000)
+            ops.append(["E", r(rng, 0.5, 60), T1, r(rng, 10, 2 * T1), r(rng, -0.05, 0.05, 4)])
+        ops.append(shift(i))
+    ops.append(["T", r(rng, 20, 160), r(rng, -180, 180)])
+    return ops
+
+
+def gen_ndcap(rng):
+    """n-D integer shifts (vector k, scalar int on existing coordinates, C) with a cap at / above / below the reached index"""
+    fam = rng.choice(["vec", "vec", "vec", "C"])
+    dim = 4 if fam == "C" else rng.choice([1, 2, 2, 3])
+
+    def shift(i):
+        if fam == "C" and rng.random() < 0.5:
+            return ["C", rng.choice([1, 1, 2])]
+        if i > 0 and rng.random() < 0.15:
+            return ["Sint", rng.choice([1, -1])]
+        d = min(dim, 3)
+        while True:
+            v = [rng.choice([0, 0, 1, 1, -1, 2]) for _ in range(d)]
+            if any(v):
+                break
+        if rng.random() < 0.5:     # the usual sizing: unit shifts along one axis
+            v = [rng.choice([1, 1, -1])] + [0] * (d - 1)
+        return ["S", v]
+    while True:
+        ops = gen_rounds(rng, rng.randint(2, 4), shift)
+        if ops[[o[0] for o in ops].index("T") + 1][0] == "Sint" or [o for o in ops if o[0] in ("S", "C", "Sint")][0][0] == "Sint":
+            continue
+        cum = reached(ops)
+        if np.prod([2 * c + 3 for c in cum]) <= 60000:
+            break
+    top = max(cum)
+    cap = rng.choice([top, top, top, top + 1, top - 1 if top > 1 else top, None])
+    return {"kind": "ndcap", "pd": float(rng.choice([0.5, 1, 1, 2])), "ops": ops, "cap": cap, "reached": top,
+            "cap_where": rng.choice(["max_nstate", "max_nstate", "nmax"]), "opk": "cap%+d" % (cap - top) if cap is not None else "nocap"}
+
+
+def gen_bfloat(rng):
+    """batched float gradients (k of shape (B > 1, d): shift-prune, kgrid) on non-real transverse states, >= 3 rounds"""
+    unit = 0.25
+    B, d = rng.choice([2, 2, 3]), rng.choice([1, 2, 2, 3])
+    fixed = rng.random() < 0.5
+    def draw():
+        out = []
+        for _ in range(B):
+            while True:
+                v = [unit * rng.choice([0, 1, 2, 3, -1, -2, 5]) for _ in range(d)]
+                if any(v):
+                    break
+            out.append(v)
+        return out
+    g0 = draw()
+    while True:
+        ops = gen_rounds(rng, rng.randint(3, 4), lambda i: ["Sb", g0 if fixed else draw()], relax_p=0.25)
+        ok = consistent_coincidences([o[1] for o in ops if o[0] == "Sb"], unit)
+        for b in range(B):
+            cum = reached(batch_entry(ops, b), unit)
+            ok &= np.prod([2 * c + 3 for c in cum]) <= 12000
+        if ok:
+            break
+        g0 = draw()
+    return {"kind": "bfloat", "pd": float(rng.choice([0.5, 1, 1, 2])), "ops": ops, "unit": unit, "batch": B,
+            "kgrid": rng.choice([1e-3, 1e-5, 1e-6]), "opk": "B%dd%d" % (B, d)}
+
+
+def consistent_coincidences(grads, unit):
+    """non-merging precondition of the batched representation: two pathways (wavenumber sum_i c_i k_i, c_i in {-1,0,1})
+    coincide in one batch entry iff they coincide in every batch entry (shift-prune stores one row per joint wavenumber)"""
+    import itertools
+    G = np.round(np.array(grads, float) / unit).astype(int)      # rounds x batch x dim
+    E = np.array([e for e in itertools.product(range(-2, 3), repeat=G.shape[0]) if any(e)])
+    zero = ~np.any(np.einsum("er,rbd->ebd", E, G), axis=-1)       # differences x batch
+    return bool(np.all(zero.all(axis=1) | ~zero.any(axis=1)))
+
+
+def batch_entry(ops, b):
+    return [["S", o[1][b]] if o[0] == "Sb" else o for o in ops]
+
+
+def check_nd(case):
+    """shared by ndcap and bfloat: step the implementation, symmetry and |F0| <= PD after every step, ensemble at the end"""
+    import epgpy as epg
+    pd, ops = case["pd"], case["ops"]
+    cap = case.get("cap")
+    opts = {}
+    if case["kind"] == "bfloat":
+        opts["kgrid"] = case["kgrid"]
+    if cap is not None and case["cap_where"] == "max_nstate":
+        opts["max_nstate"] = cap
+    sm = epg.StateMatrix(density=pd, **opts)
+    nmax = cap if (cap is not None and case["cap_where"] == "nmax") else None
+    for i, o in enumerate(ops):
+        sm = nd_build_op(o, nmax)(sm)
+        why = symmetry_violation(sm)
+        if why:
+            return "%s after step %d (%s)" % (why, i, o)
+        if not leq(np.max(f0_abs(sm)), pd):
+            return "|F0| = %.12g exceeds PD = %s after step %d (%s)" % (np.max(f0_abs(sm)), pd, i, o)
+        if not leq(np.max(np.asarray(sm.norm)), pd):
+            return "norm %.12g exceeds PD = %s after step %d (%s)" % (np.max(np.asarray(sm.norm)), pd, i, o)
+    B = case.get("batch", 1)
+    norm = np.broadcast_to(np.ravel(np.asarray(sm.norm)), (B,))
+    st = np.asarray(sm.states)
+    f0 = np.broadcast_to(np.ravel(st[..., sm.nstate, 0]), (B,))
+    truncating = cap is not None and cap < case["reached"]
+    for b in range(B):
+        rms, mean = ensemble_nd(batch_entry(ops, b) if case["kind"] == "bfloat" else ops, pd, case.get("unit", 1))
+        if truncating:
+            if not leq(norm[b], rms):
+                return "truncated run has norm %.12g above the ensemble RMS length %.12g" % (norm[b], rms)
+            continue
+        if not close(norm[b], rms):
+            return "norm = %.12g but the RMS magnetisation length of the isochromat ensemble is %.12g (batch entry %d, cap %s, reached index %s)" % (
+                norm[b], rms, b, cap, case.get("reached"))
+        if abs(f0[b] - mean) > 1e-9 * (1 + pd):
+            return "F0 = %s but the ensemble mean of Mx + i My is %s (batch entry %d)" % (f0[b], mean, b)
+    return None
+
+
 CHECKS = {"iso": check_iso, "contract": check_contract, "rms": check_rms, "signal": lambda c: check_signal(c)[0],
-          "normcorr": lambda c: check_normcorr(c)}
+          "normcorr": lambda c: check_normcorr(c), "ndcap": check_nd, "bfloat": check_nd}
 
 
 def run_stream(ctx, name, gen, n):
@@ -404,17 +661,21 @@ def run(ctx):
     proved = ctx.prove(gen=True)
     quick = ctx.tier == "quick"
     # tie no. 3: the generated arrays the theorems are about vs the implementation's numbers
-    ents = [e for e in tie.transition_entries() if e[0] in ("rotation_operator", "rotation_phi")]
-    ents += [e for e in tie.evolution_entries() if e[0] in ("precession_operator", "relaxation_operator")]
-    ents += [e for e in tie.glue_entries() if e[0] in ("T_op", "Phi_op", "E_op", "P_op")]
+    # (T_op := rotation_operator etc. are definitional aliases in Gen; the glue entries call the class constructors)
+    ents = [e for e in tie.glue_entries() if e[0] in ("T_op", "Phi_op", "E_op", "P_op")]
+    if not quick:
+        ents += [e for e in tie.transition_entries() if e[0] in ("rotation_operator", "rotation_phi")]
+        ents += [e for e in tie.evolution_entries() if e[0] in ("precession_operator", "relaxation_operator")]
     nok, nbad = tie.run(ctx, ents, 3 if quick else 40)
     n = 1 if quick else 10
     nb = 0
-    nb += run_stream(ctx, "iso", gen_iso, 800 * n)
-    nb += run_stream(ctx, "contract", gen_contract, 800 * n)
-    nb += run_stream(ctx, "rms", lambda rng: gen_rms(rng, 10), 400 * n)
-    nb += run_stream(ctx, "signal", lambda rng: gen_seq(rng, 12), 500 * n)
-    nb += norm_correspondence(ctx, 100 if quick else 2000)
+    nb += run_stream(ctx, "iso", gen_iso, 400 * n)
+    nb += run_stream(ctx, "contract", gen_contract, 400 * n)
+    nb += run_stream(ctx, "rms", lambda rng: gen_rms(rng, 10), 200 * n)
+    nb += run_stream(ctx, "signal", lambda rng: gen_seq(rng, 12), 250 * n)
+    nb += run_stream(ctx, "ndcap", gen_ndcap, 160 * n)
+    nb += run_stream(ctx, "bfloat", gen_bfloat, 60 * n)
+    nb += norm_correspondence(ctx, 60 if quick else 2000)
     try:
         demo_T2_gt_2T1(ctx)
     except Exception as e:
@@ -426,7 +687,10 @@ def run(ctx):
         "diffusion: the theorems take the per-state attenuation factors as functions with values in [0,1]; C14_diff1d_valid shows it for the generated 1-D formulas, C05 for 3-D tensors",
         "Coquelicot library; axioms as printed by Print Assumptions (classical reals, functional extensionality, classic)"]
     ctx.notes["scope"] = ("proved for the 1-D model (Model/Ops.v) at K = C with the generated T/Phi/P/E arrays; shifts untruncated; diffusion in "
-                          "abstract form (factors in [0,1]); n-D shifts, batching and the float get_norm are covered by the oracles only")
+                          "abstract form (factors in [0,1]); n-D shifts (integer with max_nstate/nmax at the reached index, batched float "
+                          "gradients), batching and the float get_norm are covered by the oracles only. bfloat cases are generated under the "
+                          "non-merging precondition: two pathways coincide in one batch entry iff in all (otherwise shift-prune keeps them in "
+                          "separate rows and F0 / norm of that entry differ from the ensemble: reported to the lead as an observation)")
     if not proved and nb == 0:
         ctx.report("proof obligations of C14 no longer check: %s" % ctx.failed_obligations,
                    {"theorem_or_correspondence": ctx.failed_obligations}, found_input=False)
